@@ -222,7 +222,8 @@ func runC10(tier string, seed uint64, o *Out) error {
 			unit, farOK = 1, true
 			resetTsCarrier()
 		}
-		ops := genSessionOps(rng, c, n, 1+rng.Intn(3), farOK && rng.Intn(5) == 0)
+		far := farOK && rng.Intn(5) == 0
+		ops := genSessionOps(rng, c, n, 1+rng.Intn(3), far)
 		if i%25 == 3 {
 			ops = overflowThenQuiet(rng, c.timeout, []string{"1", "2", "3"})
 		}
@@ -230,6 +231,10 @@ func runC10(tier string, seed uint64, o *Out) error {
 		tag := fmt.Sprintf("timeout=%d", c.timeout)
 		if tsCarrier.kind != 0 || unit != 1 {
 			tag = fmt.Sprintf("timestamp carried as kind %d unit %d", tsCarrier.kind, unit)
+		}
+		if !far && unit != 1 && rng.Intn(3) > 0 {
+			shiftOps(ops, epochBase(unit))
+			tag += ", present-day epoch"
 		}
 		err := sessionLine(o, "C10", nwCfg{c.timeout * unit, c.ooo * unit, c.late * unit}, ops, tag)
 		resetTsCarrier()
